@@ -273,7 +273,9 @@ def check(cx):
 
     # ---------------------------------------------------------------- R20.10 predefined channels (imported)
     r10 = cx.rule('R20.10', 'predefined channels are built from their configuration entry (imported)', floor=1, kind='dependency')
-    depends(cx, r10, 'C16', ('R16.3', 'R16.3b'), 'predefined channels: topic and modes from the entry, rank lists moved to the defaults and granted on join')
+    # (the MODE-time add_*/remove_* pairs and the leaving side are not part of "built from the entry and granted on join")
+    depends(cx, r10, 'C16', ('R16.3', 'R16.3b'), 'predefined channels: topic and modes from the entry, rank lists moved to the defaults and granted on join',
+            only=r'^(?!Channel::remove_)(?!Channel::add_(operator|half_operator|voice|founder|protected)\|)')
 
     # ---------------------------------------------------------------- R20.7 max_joins
     from .C07 import rule_quota
